@@ -118,6 +118,12 @@ fn differential_v<V: Fv>(ctx: &Ctx, rep: &mut Report) {
     for (s, p) in bad {
         rep.inconclusive(format!("keygen panicked for seed {}: {}", hex(&s), p.message));
     }
+    if let Some(k0) = keys.first() {
+        if !crate::signer::canary::<V>(&k0.sk) {
+            rep.inconclusive("sign does not terminate or panics on a fresh key (reported by C01); this leg needs working signatures".into());
+            return;
+        }
+    }
     let per_key = ctx.sz(24, 120);
     let r = par_for(keys.len() * per_key, ncpu(), |job, rep| {
         let k = &keys[job % keys.len()];
@@ -338,13 +344,14 @@ fn lenient_v<V: Fv>(ctx: &Ctx, rep: &mut Report) {
         variants.push(("padding-last".into(), flip(&body, 8 * l - 1)));
         // final stop bit dropped: the unary run of the last coefficient reaches the buffer end
         variants.push(("drop-last-stop-bit".into(), flip(&body, used - 1)));
-        // negative zero: set the sign bit of a coefficient that is zero
+        // negative zero: set the sign bit of a coefficient that is zero (the first zero, and the
+        // last coefficient when it is zero: the decoder treats the last one separately)
         let mut off = 0;
-        let mut done = 0;
+        let mut first_done = false;
         for (i, v) in c.s2.iter().enumerate() {
-            if *v == 0 && done < 2 && (i == c.s2.len() - 1 || i % 7 == 0 || done == 0) {
-                variants.push((format!("negative-zero-at-{}", i), flip(&body, off)));
-                done += 1;
+            if *v == 0 && (!first_done || i == c.s2.len() - 1) {
+                variants.push((format!("negative-zero-{}-at-{}", if i == c.s2.len() - 1 { "last" } else { "inner" }, i), flip(&body, off)));
+                first_done = true;
             }
             off += 9 + (v.unsigned_abs() >> 7) as usize;
         }
